@@ -35,6 +35,8 @@ K3_NOTE = ("K3: the verified text is code emitted by the real compiler for schem
 K3_ASSUME = COMMON_ASSUMPTIONS + ["A-COMP", "A-PURE", "A-MARKER", "HoleC for child code",
                                   "K2 contracts of __quote/__convert (proved under C02)"]
 FRESH = U('pyvc.fresh', 'unit', 'FRESH', needs_k3=True)
+S_MORE = [K("k3::S-Switch")]
+S_COMMENT = [K("k3::S-Comment-noninterp"), K("k3::S-Comment-drop"), K("k3::S-Comment-interp")]
 TAL_BASIC = [K("k3::S-Define"), K("k3::S-Condition"), K("k3::S-Content"), K("k3::S-OmitTag"),
              K("k3::S-OmitTag-empty"), K("k3::S-OmitTag-selfclosing"),
              K("k3::S-Attribute"), K("k3::S-Repeat")]
@@ -60,7 +62,7 @@ PROPS = {
         "fall through only on the five lookup-type exception classes (real class hierarchy "
         "axiomatised) and to propagate anything else; every schema additionally proves that each "
         "reached expression is evaluated exactly once and unreached ones never.",
-        S_TALES + TAL_BASIC + S_INTERP + [FRESH],
+        S_TALES + TAL_BASIC + S_INTERP + S_MORE + [FRESH],
         ["the Python sub-grammar (comprehensions, lambdas) and NameLookupRewriteVisitor scoping",
          "attribute->item fallback (lookup_attr), ExpressionParser prefix dispatch (K1, pending)",
          "import:/string:/structure: prefixes"]),
@@ -68,14 +70,16 @@ PROPS = {
         "Emitted save/assign/restore brackets of tal:define and tal:repeat are proved to restore the "
         "outer binding (or undefinedness) on normal exit, globals are proved to persist in scope and "
         "in the render-wide context, and macro calls receive a copy of the scope and merge globals back.",
-        [K("k3::S-Define"), K("k3::S-Repeat"), K("k3::S-UseExternal"), K("k3::S-MacroUseInternal"), FRESH],
+        [K("k3::S-Define"), K("k3::S-Repeat"), K("k3::S-UseExternal"), K("k3::S-MacroUseInternal"),
+         K("k3::S-Repeat-reserved"), K("k3::S-Define-reserved"), K("k3::S-Define-econtext"),
+         K("k3::S-OnError-Define"), K("k3::S-GlobalInLocal"), FRESH],
         ["utils.Scope methods (K1, pending; their two-layer semantics is the model used by K3)",
-         "reserved-name rejection (pending)",
-         "restore after tal:on-error recovery (known limitation of the emitted code: no finally)"]),
+         "after a nested tal:repeat that reuses the outer loop's name, repeat[name] still "
+         "refers to the exhausted inner item (DESIGN D15; not derived by a check)"]),
     "C06": k3prop(
         "Emitted code for ${...} in text is proved to append the literal parts unchanged with $$ "
         "un-doubled, each expression converted once; with meta:interpolation off nothing is evaluated.",
-        S_INTERP + [U('pyvc.frames', 'instance_state', 'instance_state'),
+        S_INTERP + S_COMMENT + [U('pyvc.frames', 'instance_state', 'instance_state'),
                     U('bounded.units', 'interp', 'B-INTERP')],
         ["the delimiter search of Interpolator.__call__ (regex + validity loop; bounded stand-in pending)",
          "attribute / comment / CDATA contexts (pending)", "entity decoding of the expression text"]),
@@ -230,7 +234,7 @@ PROPS = {
                       "child behaviours (HoleC) and all iteration counts, to produce the stream and the "
                       "evaluation trace the language prescribes.",
         "level_note": K3_NOTE + " Not yet decided: statement combinations on one element and attribute-order independence.",
-        "units": TAL_BASIC + [FRESH],
+        "units": TAL_BASIC + S_MORE + [FRESH],
         "not_decided": ["combinations of statements on one element (in progress)",
                         "independence of attribute order (in progress)"],
         "assumptions": K3_ASSUME,
@@ -241,7 +245,7 @@ PROPS = {
                       "element's output by start tag + converted fallback + end tag, to call the handler "
                       "once iff configured, to bind `error`, and to let non-Exceptions propagate.",
         "level_note": K3_NOTE,
-        "units": [K("k3::S-OnError-keep"), FRESH],
+        "units": [K("k3::S-OnError-keep"), K("k3::S-OnError-dict-attributes"), FRESH],
         "not_decided": [],
         "assumptions": K3_ASSUME,
     },
